@@ -1,6 +1,7 @@
 import Driver.Codec
 import LopdfModel.Model.Filters
 import LopdfModel.Spec.Lzw
+import LopdfModel.Spec.LzwCodec
 namespace Lopdf.Driver.C09
 open Lopdf Lopdf.Codec
 
@@ -76,14 +77,30 @@ def handle (op : String) (args : List String) : Option String :=
       | _, _, _ => "bad-op"
     | _ => "bad-op"
   | "lzwspec" | "lzwout" =>
-    -- the LZW reference decoder of Spec/Lzw.lean (validation of the shipped weezl results)
+    -- the LZW reference decoders (validation of the shipped weezl results): the array-based `Spec.Lzw.decode`
+    -- and the list-based `Spec.LzwC.lzwDecodeFull` the round-trip theorem is about must agree
     some <| match args with
     | [e, h] =>
       match (if e = "0" then some false else if e = "1" then some true else none), bytesOfHex h with
       | some early, some inp =>
         let r := Lopdf.Spec.Lzw.decode early inp
-        if op = "lzwout" then hexTok r.1
-        else (match r.2 with | .eod => "eod " | .truncated => "truncated " | .invalid => "invalid ") ++ hexTok r.1
+        -- the list-based decoder is quadratic in the table size: all inputs up to 3000 bytes, every 5th length above
+        let dual := inp.length ≤ 3000 || inp.length % 5 == 0
+        let r2 := if dual then Lopdf.Spec.LzwC.lzwDecodeFull early inp
+                  else (r.1, match r.2 with | .eod => Lopdf.Spec.LzwC.End.eod | .truncated => .truncated | .invalid => .invalid)
+        let cls (e : Lopdf.Spec.Lzw.End) := match e with | .eod => "eod " | .truncated => "truncated " | .invalid => "invalid "
+        let cls2 (e : Lopdf.Spec.LzwC.End) := match e with | .eod => "eod " | .truncated => "truncated " | .invalid => "invalid "
+        if r.1 != r2.1 || cls r.2 != cls2 r2.2 then "spec-decoders-differ " ++ cls r.2 ++ hexTok r.1 ++ " / " ++ cls2 r2.2 ++ hexTok r2.1
+        else if op = "lzwout" then hexTok r.1
+        else cls r.2 ++ hexTok r.1
+      | _, _ => "bad-op"
+    | _ => "bad-op"
+  | "lzwenc" =>
+    -- the proved reference encoder `Spec.LzwC.lzwEncode`
+    some <| match args with
+    | [e, h] =>
+      match (if e = "0" then some false else if e = "1" then some true else none), bytesOfHex h with
+      | some early, some x => "ok " ++ hexTok (Lopdf.Spec.LzwC.lzwEncode early x)
       | _, _ => "bad-op"
     | _ => "bad-op"
   | "filters" =>
